@@ -434,6 +434,12 @@ func vfBuildCoA(kv map[string]string) ([]byte, int64) {
 		switch m[0] {
 		case "S": // RFC 2866 / 5176 Request Authenticator
 			copy(pkt[4:20], vfMD5(pkt[:4], vfZero16, pkt[20:], vfUnhex(m[1])))
+		default:
+			if strings.HasPrefix(m[0], "X") { // correct authenticator with one bit flipped in octet i
+				i, _ := strconv.Atoi(m[0][1:])
+				copy(pkt[4:20], vfMD5(pkt[:4], vfZero16, pkt[20:], vfUnhex(m[1])))
+				pkt[4+i%16] ^= 0x04
+			}
 		case "L":
 			copy(pkt[4:20], vfUnhex(m[1]))
 		case "Z":
@@ -441,17 +447,30 @@ func vfBuildCoA(kv map[string]string) ([]byte, int64) {
 		}
 	}
 	mam := strings.SplitN(kv["ma"], ":", 2)
+	flip := -1
+	for _, pre := range []string{"rfcflip", "asisflip"} {
+		if strings.HasPrefix(mam[0], pre) {
+			flip, _ = strconv.Atoi(mam[0][len(pre):])
+			mam[0] = pre[:len(pre)-4]
+		}
+	}
 	switch mam[0] {
 	case "rfc": // RFC 5176: HMAC over the packet with a zero authenticator field, then the packet is signed
 		copy(pkt[4:20], vfZero16)
 		if maOff >= 0 {
 			copy(pkt[maOff:maOff+16], vfHMAC(vfUnhex(mam[1]), pkt))
+			if flip >= 0 {
+				pkt[maOff+flip%16] ^= 0x20
+			}
 		}
 		sign()
 	case "asis": // HMAC over the packet as transmitted (authenticator field already final)
 		sign()
 		if maOff >= 0 {
 			copy(pkt[maOff:maOff+16], vfHMAC(vfUnhex(mam[1]), pkt))
+			if flip >= 0 {
+				pkt[maOff+flip%16] ^= 0x20
+			}
 		}
 	case "lit":
 		if maOff >= 0 {
@@ -541,7 +560,7 @@ func vfRunCoA(f []string) string {
 		before := vfSnap(c.stats)
 		sock.WriteToUDP(dg, dst)
 		outcome, reply := "silent", []byte(nil)
-		deadline := time.Now().Add(200 * time.Millisecond)
+		deadline := time.Now().Add(150 * time.Millisecond)
 		for time.Now().Before(deadline) {
 			sock.SetReadDeadline(time.Now().Add(2 * time.Millisecond))
 			m, _, err := sock.ReadFromUDP(buf)
